@@ -22,6 +22,9 @@ SEEDS = [
     # a peptide whose mass cannot be determined (ambiguous residue B, a modification that carries no mass): every mass-like
     # query raises, and must leave the object as it found it on that path too
     "{Glycan:Hex}[Acetyl]-PEPB[INFO:note]TIDEK-[Amidated]/2",
+    # whole numbers as rule values and a float that is a whole number: queries that rebuild modifications from numbers
+    # (condensing rules, condensing to mass shifts) meet 100, 100.0, 3 and 2.0 as numbers, not as text
+    "<[100]@P>[3]-PEPKTIDEK-[2.0]",
 ]
 
 
@@ -132,28 +135,40 @@ _REF = {}
 
 def reference_results():
     """Every query on every seed annotation (and the text-only queries) evaluated in ONE fresh interpreter, text-only
-    queries first: {seed text or "": {call: canonical result}}.  Facts only; Trace_Session compares."""
+    queries first: {seed text or "": {call: canonical result}}.  Facts only; Trace_Session compares.
+    A SECOND fresh interpreter evaluates the same queries in the opposite order (seeds and calls reversed): what a fresh
+    process answers must not depend on what it answered before (returned as the second value)."""
     import subprocess
     import sys
     import os
     import peptacular
     src = os.path.dirname(os.path.dirname(os.path.abspath(peptacular.__file__)))
-    code = ("import sys, json, warnings; sys.path[:0] = %r; warnings.simplefilter('ignore')\n"
-            "from harness.drivers import c08; print('REF' + json.dumps(c08._reference()))" % ([str(core.VERIF), src],))
-    p = subprocess.run([sys.executable, "-c", code], capture_output=True, text=True, cwd=str(core.VERIF), timeout=600)
-    line = [ln for ln in p.stdout.splitlines() if ln.startswith("REF")]
-    if p.returncode != 0 or not line:
-        core.die_machinery("reference interpreter failed: " + p.stderr[-2000:])
-    return json.loads(line[-1][3:])
+    procs = []
+    for rev in (False, True):
+        code = ("import sys, json, warnings; sys.path[:0] = %r; warnings.simplefilter('ignore')\n"
+                "from harness.drivers import c08; print('REF' + json.dumps(c08._reference(%r)))" % ([str(core.VERIF), src], rev))
+        procs.append(subprocess.Popen([sys.executable, "-c", code], stdout=subprocess.PIPE, stderr=subprocess.PIPE, text=True,
+                                      cwd=str(core.VERIF)))
+    outs = []
+    for p in procs:
+        so, se = p.communicate(timeout=900)
+        line = [ln for ln in so.splitlines() if ln.startswith("REF")]
+        if p.returncode != 0 or not line:
+            core.die_machinery("reference interpreter failed: " + se[-2000:])
+        outs.append(json.loads(line[-1][3:]))
+    return outs[0], outs[1]
 
 
-def _reference():
+def _reference(rev=False):
     import peptacular as pp
     table = calls.table()
     ref = {"": {}}
     random.seed(4242)
     order = sorted(table, key=lambda n: (not n.startswith("t_"), n))
-    for text in [""] + SEEDS:
+    texts = [""] + SEEDS
+    if rev:
+        order, texts = order[::-1], texts[::-1]
+    for text in texts:
         ref.setdefault(text, {})
         for name in order:
             cls, fn = table[name]
@@ -253,8 +268,17 @@ def run(tier, seed, rep):
         jobs.append((rnd.choice(SEEDS), [rnd.choice(names) for _ in range(3)], f"t{hid}"))
         hid += 1
     _REF.clear()
-    _REF.update(reference_results())       # before the pool forks: the workers inherit it
+    fwd, bwd = reference_results()
+    _REF.update(fwd)                       # before the pool forks: the workers inherit it
     evs = [e for lst in core.pmap(_job, jobs) for e in lst]
+    # the two fresh interpreters against each other: one event per (seed, query)
+    k_ = 0
+    for text in sorted(fwd):
+        for name in sorted(fwd[text]):
+            k_ += 1
+            evs.append({"tid": f"ref.{k_}", "hid": f"ref{k_ % 16}", "step": 1, "call": name, "cls": "R", "history": [name], "seed": text,
+                        "ref": fwd[text][name], "res": bwd.get(text, {}).get(name, "<not evaluated>"), "fresh": "", "out": "ret",
+                        "post": [], "edited": []})
     random.setstate(saved)
     # keep histories together: shard by history
     res = core.validate_traces("Trace_Session", evs, "C08", min_per_shard=300, by="hid")
